@@ -1,6 +1,6 @@
 (** * C11 — all physical implementations of an operator agree.
     Only statements, each closed by [exact], with its assumptions printed. *)
-From RL Require Import Model.Exec Proofs.ExecP Proofs.MergeJoinP Proofs.MergeLeftP Proofs.SortAggP Proofs.SimpleAggP.
+From RL Require Import Model.Exec Proofs.ExecP Proofs.MergeJoinP Proofs.MergeLeftP Proofs.SortAggP Proofs.SimpleAggP Proofs.WideKeysP.
 From Coq Require Import Permutation.
 Open Scope Z_scope.
 
@@ -67,12 +67,23 @@ Theorem topn_eq_sort_then_limit : forall limit offset ks c,
   x_topn limit offset ks c = concat (x_limit limit offset [x_order ks c]).
 Proof. exact topn_eq_limit_order. Qed.
 
-(** known finding KF_C11_int_width_keys: an INT key never equals a BIGINT key in the hash join *)
-Theorem int_width_keys_disagree :
-  let L := [[ [DI32 1] ]] in let R := [[ [DI64 1] ]] in
-  x_nljoin JInner (SEq (SCol 0) (SCol 1)) 1 L R = Some [[DI32 1; DI64 1]] /\
-  x_hashjoin JInner [SCol 0] [SCol 0] 1 1 L R = [].
-Proof. exact int_width_keys_refuted. Qed.
+(** keys of different integer widths (fixed: executor::build casts mixed numeric key pairs to the wider
+    type, [wide_keys]): the conjunction of column equalities the optimiser turns into join keys IS the
+    equality of those keys, for integers of any widths, NULLs and every other value — so the theorems
+    above apply to it, and hash, merge and nested-loop joins agree on INT = BIGINT keys *)
+Theorem sql_equality_is_the_equality_of_wide_keys : forall ps nl Ls Rs,
+  (forall l, In l Ls -> length l = nl) -> Forall (fun p => (fst p < nl)%nat) ps ->
+  equi_cond (eq_conj nl ps) (wide_keys (lcols ps)) (wide_keys (rcols ps)) Ls Rs.
+Proof. exact eq_conj_is_equi_cond_on_wide_keys. Qed.
+Theorem hash_eq_nested_loop_on_column_equalities : forall t ps nl nr L R, t <> JRight -> t <> JFull ->
+  (forall l, In l (concat L) -> length l = nl) -> Forall (fun p => (fst p < nl)%nat) ps ->
+  Some (x_hashjoin t (wide_keys (lcols ps)) (wide_keys (rcols ps)) nl nr L R) = x_nljoin t (eq_conj nl ps) nr L R.
+Proof. exact hashjoin_eq_nljoin_on_columns. Qed.
+Example int_and_bigint_keys_match :
+  let L := [[ [DI32 1]; [DI32 2] ]] in let R := [[ [DI64 1]; [DI16 2]; [DNull] ]] in
+  x_nljoin JInner (eq_conj 1 [(0, 0)%nat]) 1 L R = Some [[DI32 1; DI64 1]; [DI32 2; DI16 2]] /\
+  x_hashjoin JInner (wide_keys [SCol 0]) (wide_keys [SCol 0]) 1 1 L R = [[DI32 1; DI64 1]; [DI32 2; DI16 2]].
+Proof. cbv zeta. split; reflexivity. Qed.
 
 (** non-vacuity: on INT keys the SQL equality IS an [equi_cond] *)
 Example equi_cond_applies :
@@ -94,4 +105,5 @@ Print Assumptions merge_left_outer_rows.
 Print Assumptions sort_aggregation_eq_hash_aggregation.
 Print Assumptions simple_aggregation_eq_rowwise.
 Print Assumptions topn_eq_sort_then_limit.
-Print Assumptions int_width_keys_disagree.
+Print Assumptions sql_equality_is_the_equality_of_wide_keys.
+Print Assumptions hash_eq_nested_loop_on_column_equalities.
